@@ -68,3 +68,16 @@ package persistence
 //@   facet C13
 //@   opt no-frame
 //@   ensures [C13:sql-defaults-wired] len(opts) == 0 ==> result != nil && result.db == dbHandle && result.storeKeyQuery == defaultStoreKeyQuery && result.loadKeyQuery == defaultLoadKeyQuery && result.loadLatestQuery == defaultLoadLatestQuery
+
+// ---- C18: the SQL row's key_record column is the JSON document of the record itself ----
+//@ extern json.Marshal
+//@   names v
+//@   ensures result == nil || fresh(result)
+//@ extern sql.(*DB).ExecContext
+//@   names db, ctx, query, args
+//@ func (*SQLMetastore).Store
+//@   facet C18
+//@   opt no-frame
+//@   requires s != nil && s.db != nil
+//@   ensures [C18:sql-row-is-the-json-document-of-the-record] ncalls(Marshal) == 1 && istype(arg(Marshal, 1, v), *appencryption.EnvelopeKeyRecord) && dyn(arg(Marshal, 1, v), *appencryption.EnvelopeKeyRecord) == envelope
+//@   ensures [C18:sql-insert-uses-the-configured-statement] retis(Marshal, 1, 1, nil) ==> ncalls(ExecContext) == 1 && arg(ExecContext, 1, query) == s.storeKeyQuery && len(arg(ExecContext, 1, args)) == 3
